@@ -80,6 +80,8 @@ func scriptedWorkloads(tier string, seed int64) []WLSpec {
 			oa := defOpts(cfg, 200)
 			oa.AutoSync = true
 			mk("W6-autosync", oa, pub(2), pub(3), del("head-middle"), pub(2), pub(2), del("reader-first"), del("head-tail"), pub(1))
+			// W9 multi-segment helpers (every inner Delete is its own all-or-nothing op)
+			mk("W9-helpers", o, pub(3), pub(3), pub(3), pub(2), pub(3), WLStep{Kind: "trimoffset", N: 9}, pub(2), pub(2), WLStep{Kind: "compactupdates"}, pub(1), WLStep{Kind: "trimcount", N: 2}, pub(1))
 			// W8 a process that dies without Sync/Close, a second one that only syncs or closes
 			mk("W8-die-reopen-sync", o, pub(3), pub(2), WLStep{Kind: "die"}, WLStep{Kind: "open", Opts: &o}, WLStep{Kind: "sync"}, pub(1), WLStep{Kind: "sync"})
 			mk("W8-die-reopen-close", o, pub(2), pub(3), pub(3), WLStep{Kind: "die"}, WLStep{Kind: "open", Opts: &o}, WLStep{Kind: "close"}, WLStep{Kind: "open", Opts: &o}, pub(2))
@@ -131,6 +133,8 @@ func randomWorkload(seed int64, i int) WLSpec {
 			steps = append(steps, WLStep{Kind: "publish", N: r.Intn(5)})
 		case x < 78:
 			steps = append(steps, WLStep{Kind: "delete", Target: pick(r, targets)})
+		case x < 81:
+			steps = append(steps, WLStep{Kind: pick(r, []string{"trimcount", "trimoffset", "compactupdates"}), N: 2 + r.Intn(6)})
 		case x < 86:
 			steps = append(steps, WLStep{Kind: "sync"})
 		case x < 90:
